@@ -9,6 +9,7 @@ package main
 
 import (
 	"bytes"
+	"os"
 	"runtime"
 	"strconv"
 	"sync"
@@ -55,7 +56,14 @@ func goid() int64 {
 }
 
 func newSched(rng *Rng, choices []int) *sched {
-	s := &sched{byID: map[int64]*gState{}, closed: map[any]bool{}, qlabel: map[any]int{}, rng: rng, choices: choices, patience: 500 * time.Millisecond}
+	// how long a granted goroutine may take to reach its next synchronisation point before the run is
+	// declared stuck (it is then really blocked inside the Go runtime); generous, so that a loaded
+	// machine does not turn slowness into a verdict
+	patience := 2 * time.Second
+	if ms, err := strconv.Atoi(os.Getenv("VERIF_PATIENCE_MS")); err == nil && ms > 0 {
+		patience = time.Duration(ms) * time.Millisecond
+	}
+	s := &sched{byID: map[int64]*gState{}, closed: map[any]bool{}, qlabel: map[any]int{}, rng: rng, choices: choices, patience: patience}
 	s.cv = sync.NewCond(&s.mu)
 	col.VerifHook = s.hook
 	return s
